@@ -39,6 +39,9 @@ type connScn struct {
 	NCallbacks    int       `json:"ncallbacks"`
 	Peer          []peerAct `json:"peer"`
 	Closers       int       `json:"closers,omitempty"`
+	// EarlyClose: the closers have the connection from OnPrepare (the first moment user code sees it)
+	// and may close it from their own goroutines from then on, i.e. also while netpoll registers it.
+	EarlyClose bool `json:"early_close,omitempty"`
 	Detach        bool      `json:"detach,omitempty"`
 	Observer      bool      `json:"observer,omitempty"`
 	LateSetReq    bool      `json:"late_set_request,omitempty"`
@@ -94,6 +97,9 @@ func genConnScn(t *rapid.T, prop string, excl map[string]bool) connScn {
 		s.Closers = rapid.IntRange(0, 3).Draw(t, "closers")
 		s.Detach = rapid.IntRange(0, 7).Draw(t, "detach") == 0
 		s.Observer = rapid.Bool().Draw(t, "observer")
+		if !s.Client && s.Closers > 0 {
+			s.EarlyClose = rapid.IntRange(0, 2).Draw(t, "earlyClose") == 0
+		}
 	} else if prop == "C09" {
 		s.Closers = rapid.SampledFrom([]int{0, 0, 0, 1}).Draw(t, "closers")
 	} else {
@@ -251,7 +257,7 @@ func runConn(t *rapid.T, s connScn, replay []vs.Step) *connOutcome {
 		}()
 		c.Close()
 	}
-	accepted := false
+	accepted, prepared := false, false
 	addCallbacks := func() {
 		for i := 0; i < s.NCallbacks; i++ {
 			i := i
@@ -269,6 +275,7 @@ func runConn(t *rapid.T, s connScn, replay []vs.Step) *connOutcome {
 		userPrepare := opts.onPrepare
 		opts.onPrepare = func(conn Connection) context.Context {
 			addCallbacks()
+			defer func() { prepared = true }()
 			if userPrepare != nil {
 				return userPrepare(conn)
 			}
@@ -277,6 +284,12 @@ func runConn(t *rapid.T, s connScn, replay []vs.Step) *connOutcome {
 	}
 	w.s.Go("acceptor", false, func() {
 		// mirrors server.onAccept: init, register the close callbacks, fire OnConnect
+		defer func() {
+			if p := recover(); p != nil {
+				// server.onAccept runs on the poller's goroutine: nothing recovers there
+				w.s.Crashes = append(w.s.Crashes, fmt.Sprintf("panic in connection.init/onConnect (accept path): %v", p))
+			}
+		}()
 		var err error
 		if s.Client {
 			err = c.init(&netFD{fd: r, network: "unix", remoteAddr: &UnixAddr{}, localAddr: &UnixAddr{}}, nil)
@@ -324,7 +337,7 @@ func runConn(t *rapid.T, s connScn, replay []vs.Step) *connOutcome {
 	for i := 0; i < s.Closers; i++ {
 		name := fmt.Sprintf("closer%d", i)
 		w.s.Go(name, false, func() {
-			vs.WaitFor(-18, func() bool { return accepted })
+			vs.WaitFor(-18, func() bool { return accepted || (s.EarlyClose && prepared) })
 			vs.Yield(-19)
 			w.ev("user-close")
 			closeIt(name)
